@@ -3,7 +3,29 @@
 
 mod batch;
 mod bytes;
+#[cfg(feature = "exotic")]
 mod exotic;
+#[cfg(not(feature = "exotic"))]
+mod exotic {
+    //! stand-in when the exotic lane is compiled out (see Cargo.toml)
+    #[derive(Clone, Debug)]
+    pub struct ExoticFailure {
+        pub case: String,
+        pub scenario: String,
+        pub assert_id: &'static str,
+        pub observed: String,
+    }
+    #[derive(Default)]
+    pub struct ExoticReport {
+        pub cases: u64,
+        pub evaluations: u64,
+        pub failures: Vec<ExoticFailure>,
+        pub case_names: Vec<String>,
+    }
+    pub fn run_all(_only: Option<&str>) -> ExoticReport {
+        ExoticReport::default()
+    }
+}
 mod gen;
 mod medium;
 mod node;
